@@ -267,7 +267,26 @@ func (w *World) judgeLiveness(quiet bool) {
 			w.probe("liveness-decided-in-old-view")
 			continue
 		}
-		// (ii) at the next quiet point every member that accepted that view's proposal has committed it
+		// (ii) concerns a view led by a correct member that was joined by correct members of quorum weight: in a
+		// Byzantine-led view, or when the acceptors need Byzantine help to reach the quorum, selective sending can
+		// legitimately let only some of them decide
+		ld := w.keys.IdxOf(w.leader(lh.h, uint64(lh.firstView)))
+		accW := map[string]bool{}
+		for _, n := range lh.members {
+			for _, s := range n.obs.sends {
+				m := s.msg
+				if m != nil && s.epoch == n.epoch && m.Height() == lh.h && (m.Kind == KP || m.Kind == KPP || m.Kind == KNV) && m.Ref.V == uint64(lh.firstView) && bytes.Equal(m.Ref.Hash, lh.hash) {
+					accW[string(n.id)] = true
+				}
+			}
+		}
+		_, _, q := thresholds(w.Committee(lh.h))
+		if ld < 0 || w.isByz(ld) || w.weightOf(lh.h, accW) < q {
+			lh.done = true
+			w.probe("liveness-judged")
+			w.probe("liveness-decided-with-byzantine-help")
+			continue
+		}
 		for _, n := range lh.members {
 			accepted := false
 			for _, s := range n.obs.sends {
